@@ -4,6 +4,7 @@ package vmx
 // on a caller-chosen (persistent) chain data directory.
 
 import (
+	"bytes"
 	"context"
 	stded "crypto/ed25519"
 	"crypto/sha256"
@@ -11,6 +12,8 @@ import (
 	"encoding/json"
 	"errors"
 	"fmt"
+	"os"
+	"runtime"
 	"runtime/debug"
 	"testing"
 	"time"
@@ -217,8 +220,30 @@ func (n *node) observe(ctx context.Context, rep *nodeReport) {
 	rep.StateRoot = root.String()
 }
 
-// awaitMempoolIdle gives the builder's asynchronous FinishStreaming goroutine
-// time to run: chain.BuildBlock returns before the mempool stream is closed and
-// a StartStreaming racing with it blocks while holding the mempool lock. This
-// is pacing only (a hang would end in the watchdog = inconclusive).
-func awaitMempoolIdle() { time.Sleep(15 * time.Millisecond) }
+// awaitMempoolIdle waits until the builder's asynchronous FinishStreaming
+// goroutine has ended: chain.BuildBlock returns before the mempool stream is
+// closed and a StartStreaming racing with it blocks while holding the mempool
+// lock (harness hazard, not judged here). The goroutine is recognised by its
+// chain.(*Builder).BuildBlock frames; callers are never inside BuildBlock.
+// Pacing only: a hang would end in a watchdog (inconclusive).
+func awaitMempoolIdle() {
+	buf := make([]byte, 1<<20)
+	for i := 0; i < 5000; i++ {
+		n := runtime.Stack(buf, true)
+		if !bytes.Contains(buf[:n], []byte("chain.(*Builder).BuildBlock")) {
+			return
+		}
+		time.Sleep(time.Millisecond)
+	}
+}
+
+// childWatchdog dumps all goroutines and exits with code 4 when a child
+// process runs longer than d (diagnostics for inconclusive cases).
+func childWatchdog(d time.Duration, sink func(string)) {
+	time.AfterFunc(d, func() {
+		buf := make([]byte, 8<<20)
+		n := runtime.Stack(buf, true)
+		sink(string(buf[:n]))
+		os.Exit(4)
+	})
+}
